@@ -32,6 +32,10 @@ def sign(v, facts=FACTS) -> str:
     return "?"
 
 
+class ZeroStep(Unmodelled):
+    """Python semantics, not a gap of the normal form: indexing with a slice whose step is 0 raises ValueError."""
+
+
 class Sel:
     def __init__(self, start, step, count):
         self.start = Lin.of(start)
@@ -48,6 +52,8 @@ class Sel:
         return f"[start {simplify(self.start)!r}, step {self.step:+d}, count {simplify(self.count)!r}]"
 
     def slice(self, s: SliceV) -> "Sel":
+        if s.step == 0 and s.step is not False:
+            raise ZeroStep("slice step 0")
         if s.step not in (None, 1, -1):
             raise Unmodelled(f"slice step {s.step!r}")
         c = self.count
